@@ -64,6 +64,9 @@ func (fc *FCtx) evalCall(e *ast.CallExpr, st *State) []Val {
 		if r, ok := fc.callCurried(e, st); ok {
 			return r
 		}
+		if r, ok := fc.callUnknownFuncValue(e, st); ok {
+			return r
+		}
 		oos("call through function value %s", name)
 	}
 	// chains that only feed dropped calls: ctx.EventManager(), ctx.Logger()
@@ -113,7 +116,22 @@ func (fc *FCtx) evalCall(e *ast.CallExpr, st *State) []Val {
 	}
 	// abstract repo function: uninterpreted total function of its arguments
 	if c := fc.E.cs.Funcs[key]; c != nil && c.Flags["abstract"] != "" {
-		return fc.pureExternCall(name, fn, e, recvExpr, st)
+		res := fc.pureExternCall(name, fn, e, recvExpr, st)
+		// `ensures` clauses of an abstract function may constrain its results (e.g. the length of a hash); they are
+		// assumptions about the uninterpreted function and may only mention the results
+		if len(c.Ensures) > 0 {
+			names := map[string]Val{}
+			for i, rn := range resultNames(sig, c) {
+				if i < len(res) {
+					names[rn] = res[i]
+				}
+			}
+			for _, en := range c.Ensures {
+				env := &Env{fc: fc, st: st, old: st, names: names, oldNames: names, pkg: fc.E.pkgOfContract(c)}
+				st.assume(fc.specBool(en.Expr, env))
+			}
+		}
+		return res
 	}
 	// contract call
 	if c := fc.E.cs.Funcs[key]; c != nil && c.Flags["inline"] == "" {
@@ -509,6 +527,32 @@ func (fc *FCtx) evalAppend(e *ast.CallExpr, st *State) Val {
 	s := fc.eval(e.Args[0], st)
 	t := fc.info().TypeOf(e)
 	rs := fc.U.SortOf(t)
+	// Aliasing hazard that the value model of slices cannot see by itself: append to a slice that is SHARED - a variable
+	// captured by the function literal under verification, or a package-level variable - writes into the shared
+	// backing array whenever the slice has spare capacity, so every call of the closure would overwrite what the
+	// previous call returned. Obligation: such a slice is full (len == cap) when appended to.
+	if id, ok := unparen(e.Args[0]).(*ast.Ident); ok && len(fc.frames) == 1 {
+		if v, isVar := fc.info().ObjectOf(id).(*types.Var); isVar && !v.IsField() {
+			shared := v.Pkg() != nil && v.Parent() == v.Pkg().Scope()
+			if lit := fc.FI.Lit; lit != nil && (v.Pos() < lit.Pos() || v.Pos() > lit.End()) {
+				shared = true
+			}
+			if fc.appendSelf == e {
+				shared = false
+			}
+			// (the obligation exists for every append to a named slice - trivially true when the slice is not shared - so
+			// that it has a ledger entry and a change that makes the slice shared is a failing, previously proved obligation)
+			goal := "true"
+			if shared && isBz(s.S) {
+				goal = fmt.Sprintf("(= (bz_len %s) (bz_cap %s))", s.T, s.T)
+			} else if shared && s.S.Kind == KSlice {
+				goal = fmt.Sprintf("(= %s %s)", slLen(s), slCap(s))
+			}
+			if fc.FI.Lit != nil {
+				fc.oblige(st, "append-shared-capacity", goal, "append to the slice "+id.Name+" must not write into spare capacity of a slice shared between calls", e.Pos())
+			}
+		}
+	}
 	if isBz(rs) {
 		if !isBz(s.S) {
 			s = Val{T: "bz_nil", S: rs, GoT: t}
@@ -1083,6 +1127,8 @@ var extAliases = map[string]struct {
 	"BlockID.ToProto":                     {"(*github.com/cometbft/cometbft/types.BlockID).ToProto", "cmtproto.BlockID"},
 	"ModuleAccountI.GetAddress":           {"(github.com/cosmos/cosmos-sdk/types.AccountI).GetAddress", "Addr"},
 	"LegacyDec.RoundInt":                  {"(cosmossdk.io/math.LegacyDec).RoundInt", "Int"},
+	"LegacyNewDecFromStr":                 {"cosmossdk.io/math.LegacyNewDecFromStr", "Int"},
+	"LegacyNewDecFromStr#1":               {"cosmossdk.io/math.LegacyNewDecFromStr", "Int"},
 	"Validator.TokensFromSharesTruncated": {"(github.com/cosmos/cosmos-sdk/x/staking/types.Validator).TokensFromSharesTruncated", "Int"},
 	"bytes.Join":                          {"bytes.Join", "Bz"},
 	"bytes.Equal":                         {"bytes.Equal", "Bool"},
@@ -1155,3 +1201,39 @@ func (fc *FCtx) callCurried(e *ast.CallExpr, st *State) ([]Val, bool) {
 }
 
 func gsufOf(s string) string { return "" }
+
+// callUnknownFuncValue: a call through a variable of function type whose target is not known (a handler passed in, a
+// captured callback). Over-approximation: arguments are evaluated, every ghost becomes arbitrary, the results are
+// arbitrary well-typed values. Assumed (listed): the callee does not panic.
+func (fc *FCtx) callUnknownFuncValue(e *ast.CallExpr, st *State) ([]Val, bool) {
+	ft := fc.info().TypeOf(e.Fun)
+	if ft == nil {
+		return nil, false
+	}
+	sig, ok := ft.Underlying().(*types.Signature)
+	if !ok {
+		return nil, false
+	}
+	switch unparen(e.Fun).(type) {
+	case *ast.Ident, *ast.SelectorExpr:
+	default:
+		return nil, false
+	}
+	for _, a := range e.Args {
+		fc.eval(a, st)
+	}
+	for _, g := range fc.ghostNames(st) {
+		gv := st.ghost[g]
+		st.ghost[g] = Val{T: fc.U.Fresh("g_"+g, gv.S), S: gv.S, GoT: gv.GoT}
+	}
+	fc.assumed["call through a function value ("+fc.calleeName(e)+"): arbitrary effect on every ghost, arbitrary results, assumed not to panic"] = true
+	var res []Val
+	for i := 0; i < sig.Results().Len(); i++ {
+		rt := sig.Results().At(i).Type()
+		s := fc.U.SortOf(rt)
+		v := Val{T: fc.U.Fresh("fv", s), S: s, GoT: rt}
+		st.assume(fc.U.WF(v))
+		res = append(res, v)
+	}
+	return res, true
+}
